@@ -111,6 +111,11 @@ package cache
 //@   requires cache.pps != nil ==> rtpOK(cache.pps)
 //@   requires forall(i, 0, len(seq(&cache.gop)), typeIs(seq(&cache.gop)[i], "*rtp.Packet"))
 //@   modifies seq(q.Queue()), held(&cache.l)
+// the replay is copied into the joiner's queue while the cache's read lock is held: Elems() is a view of the live GOP
+// array, which the publisher's CachePack resets and refills under the write lock
+//@   assert[call:Push] held(&cache.l)
+//@   assert[call:PushN] held(&cache.l)
+//@   assert[call:Elems] held(&cache.l)
 //@   local rangeindex int
 //@   loop 0: modifies
 //@   loop 0: invariant -1 <= rangeindex && rangeindex <= len(seq(&cache.gop))
@@ -149,6 +154,11 @@ package cache
 //@   requires cache != nil && q != nil && !held(&cache.l)
 //@   requires forall(i, 0, len(seq(&cache.gop)), typeIs(seq(&cache.gop)[i], "*flv.Tag") && seq(&cache.gop)[i].(*flv.Tag) != nil)
 //@   modifies seq(q.Queue()), held(&cache.l)
+// the replay is copied into the joiner's queue while the cache's read lock is held: Elems() is a view of the live GOP
+// array, which the publisher's CachePack resets and refills under the write lock
+//@   assert[call:Push] held(&cache.l)
+//@   assert[call:PushN] held(&cache.l)
+//@   assert[call:Elems] held(&cache.l)
 //@   local rangeindex int
 //@   loop 0: modifies
 //@   loop 0: invariant -1 <= rangeindex && rangeindex <= len(seq(&cache.gop))
@@ -190,6 +200,11 @@ package cache
 //@   requires cache.pps != nil ==> rtpOK(cache.pps)
 //@   requires forall(i, 0, len(seq(&cache.gop)), typeIs(seq(&cache.gop)[i], "*rtp.Packet"))
 //@   modifies seq(q.Queue()), held(&cache.l)
+// the replay is copied into the joiner's queue while the cache's read lock is held: Elems() is a view of the live GOP
+// array, which the publisher's CachePack resets and refills under the write lock
+//@   assert[call:Push] held(&cache.l)
+//@   assert[call:PushN] held(&cache.l)
+//@   assert[call:Elems] held(&cache.l)
 //@   local rangeindex int
 //@   loop 0: modifies
 //@   loop 0: invariant -1 <= rangeindex && rangeindex <= len(seq(&cache.gop))
